@@ -162,6 +162,8 @@ class SimSocket:
     # ---- helpers ----
     def _log(self, *ev):
         c = self.conn
+        if ev and ev[0] == "recv" and getattr(self, "_tls_pull", False) and isinstance(ev[-1], (bytes, bytearray)) and ev[-1]:
+            return
         if c is not None:
             s = _sched.CURRENT
             c.log.append((round(s.now, 9) if s else 0.0, _actor_name()) + ev)
@@ -449,16 +451,21 @@ class SimTLSSocket(SimSocket, _ssl_mod.SSLSocket):
             return out
         # pull one whole record
         c = self.conn
-        before = c.consumed if c else 0
+        prev_max = c.max_recv_req if c is not None else 0
+        self._tls_pull = True  # the log records what the library is handed (plaintext pieces), not the record pulled underneath
         try:
             rec = SimSocket.recv(self, 1 << 30)
         except BlockingIOError:
             # what a non-blocking ssl.SSLSocket raises when no complete record is there yet
             import ssl as _ssl
             raise _ssl.SSLWantReadError(_ssl.SSL_ERROR_WANT_READ, "The operation did not complete (read)") from None
-        if c is not None and c.max_recv_req == 1 << 30:
-            c.max_recv_req = bufsize
+        finally:
+            self._tls_pull = False
+            if c is not None:
+                c.max_recv_req = max(prev_max, bufsize)
         out, self._plain = rec[:bufsize], rec[bufsize:]
+        if rec:
+            self._log("recv", bufsize, out)
         return out
 
     def unwrap(self):
